@@ -111,6 +111,11 @@ func expect(c Case) (string, string) {
 			set(reject, "malformed template "+b.Tmpl)
 			continue
 		}
+		if strings.Count(b.Tmpl, "/") >= 20 {
+			// grammatical, but an implementation may bound the length of a template: accepted (and then
+			// routed) or refused with an error - never a panic
+			set(either, "very long template")
+		}
 		if tm.NestedVar {
 			set(either, "nested variable")
 		}
@@ -419,7 +424,7 @@ func genCase(t *rapid.T) Case {
 	valid := func() route.Binding {
 		return route.Binding{Verb: rapid.SampledFrom(route.HTTPVerbs).Draw(t, "nverb"), Tmpl: route.GenTemplate(t, o).String()}
 	}
-	c.Kind = rapid.SampledFrom([]string{"valid", "valid", "valid", "mutant", "mutant", "fieldfault", "selector", "nested", "collision", "twice", "implicit", "contested"}).Draw(t, "kind")
+	c.Kind = rapid.SampledFrom([]string{"valid", "valid", "valid", "mutant", "mutant", "fieldfault", "selector", "nested", "collision", "twice", "implicit", "contested", "long"}).Draw(t, "kind")
 	nb := rapid.SampledFrom([]int{1, 1, 2, 3}).Draw(t, "nb")
 	for i := 0; i < nb; i++ {
 		c.New = append(c.New, valid())
@@ -443,6 +448,19 @@ func genCase(t *rapid.T) Case {
 			}
 		}
 		c.New[pick].Tmpl = s
+	case "long":
+		// a valid template continued with literal segments up to and beyond any plausible token budget
+		tm := c.New[pick].Tmpl
+		verb := ""
+		if i := strings.LastIndex(tm, ":"); i > strings.LastIndex(tm, "}") && i > strings.LastIndex(tm, "/") {
+			tm, verb = tm[:i], tm[i:]
+		}
+		if !strings.Contains(tm, "**") {
+			for n := rapid.IntRange(20, 40).Draw(t, "longSegs"); strings.Count(tm, "/") < n; {
+				tm += "/" + rapid.SampledFrom(c16Lits).Draw(t, "longLit")
+			}
+		}
+		c.New[pick].Tmpl = tm + verb
 	case "fieldfault":
 		f := rapid.SampledFrom([]string{"nope", "name.id", "Name", "sub.nope", "sub.inner.id.x", "tags", "sub", "page_size", "pageSize", "labels", "labels.key", "labels.value", "subs.key", "subs.value.name", "subs.value.inner.id"}).Draw(t, "ff")
 		c.New[pick].Tmpl = "/" + rapid.SampledFrom(c16Lits).Draw(t, "fl") + "/{" + f + "}"
@@ -502,6 +520,22 @@ func genCase(t *rapid.T) Case {
 				}
 			}
 			c.NewPaths = append(c.NewPaths, ps)
+		}
+	}
+	// probes of the rule under registration itself: if the registration is refused, its own paths - and
+	// the base paths under ITS verbs - must answer exactly as before (nothing of a refused rule is bound)
+	baseN := len(c.Probes)
+	for _, nb := range c.New {
+		verb := strings.ToUpper(nb.Verb)
+		if verb == "*" || verb == "" {
+			verb = "GET"
+		}
+		if tm, err := ref.ParseTemplate(nb.Tmpl); err == nil {
+			p, _ := route.InstantiateFixed(tm)
+			c.Probes = append(c.Probes, Req{verb, p})
+		}
+		for i := 0; i < baseN && i < 12; i += 3 {
+			c.Probes = append(c.Probes, Req{verb, c.Probes[i].Path})
 		}
 	}
 	return c
